@@ -66,6 +66,27 @@ CHECKS = {
         "the quantifier).",
         "DESIGN.md 3/C19",
     ),
+    "C13": (
+        "Hypothesis-generated (pickle, query sequence) pairs, metamorphic 'same answer as first "
+        "time' oracle; cross-process digests under different PYTHONHASHSEED",
+        "Generated-input search over histories of read-only queries on two independently parsed "
+        "copies of generated accepted pickles: every later answer must equal the first answer of "
+        "its kind and dumps() must stay equal to the input; a generated corpus is digested by "
+        "fresh interpreters with different hash seeds and the digests compared.",
+        "Trusted: equality of text/severity/finding-set as the observable; only accepted pickles "
+        "(parse+interpret+unparse succeed) are in the quantifier.",
+        "DESIGN.md 3/C13",
+    ),
+    "C14": (
+        "Hypothesis RuleBasedStateMachine over edit/read histories; differential against a "
+        "freshly constructed Pickled after every read",
+        "Stateful generated search: histories of sequence edits and injection helpers "
+        "interleaved with reads; each read view must equal the same view of Pickled(list(p)) "
+        "(same value or same exception type), and dumps() the concatenation of opcode encodings.",
+        "Trusted: a freshly constructed Pickled as the reference for every view; structural AST "
+        "dump written for the harness (ast.dump does not descend into tuple-valued fields).",
+        "DESIGN.md 3/C14",
+    ),
 }
 
 PENDING = {}
